@@ -322,7 +322,12 @@ def main():
     corpus = props.corpus_cases(prop)
     n = args.n or cfg["n"][tier]
     gen_cases = props.generate(prop, n, seed, tier)
-    cases = corpus + gen_cases
+    enum_desc, enum_cases = None, []
+    if tier == "thorough" and not args.n:
+        e = gen.enumerated(prop)
+        if e:
+            enum_desc, enum_cases = e
+    cases = corpus + enum_cases + gen_cases
     results = run_cases(build, driver, cases, cfg.get("timeout", 10))
 
     known = load_known()
@@ -412,6 +417,7 @@ def main():
 
     write_evidence(prop, tier, seed, cfg, aud, results, [r for _, r in knowns], time.time() - t0,
                    len(violations) if exit_code else 0, dict(build_hash=build["hash"], corpus=len(corpus), errors=len(errors),
+                                      enumerated_scope=(dict(description=enum_desc, cases=len(enum_cases), complete=True) if enum_desc else None),
                                       extra_searched=extra_searched, replays=replays))
     return exit_code
 
